@@ -189,7 +189,7 @@ def places(e, out, holder=None):
         for k, sub in e.get("extra", []):
             places(sub, out, ("model", e["cls"], k))
     elif t == "coll":
-        for k, sub in e["items"]:
+        for k, sub in MG.resolve_copies(e)["items"]:
             places(sub, out, ("coll", None, k))
 
 
@@ -217,14 +217,15 @@ def candidates(prog, i, wms):
 
 def root_digit_prior(prog):
     r = prog["root"]
-    return r["t"] == "coll" and any(k.isdigit() and sub["t"] == "prior" for k, sub in r["items"])
+    return r["t"] == "coll" and any(k.isdigit() and sub["t"] == "prior" for k, sub in MG.resolve_copies(r)["items"])
 
 
 def has_counted_collection(e):
     """A list-style collection (built from a list or by append) has a non-zero item counter."""
     t = e["t"]
     if t == "coll":
-        return (e["form"] in ("list", "append") and len(e["items"]) > 0) or any(has_counted_collection(sub) for _, sub in e["items"])
+        return (e["form"] in ("list", "append") and len(e["items"]) > 0) or any(
+            has_counted_collection(sub) for _, sub in MG.resolve_copies(e)["items"])
     if t == "model":
         return any(has_counted_collection(sub) for sub in e["kw"].values() if sub["t"] in ("model", "coll"))
     return False
@@ -478,7 +479,7 @@ def drop_collection_constants(e, inst):
     t = e["t"]
     if t == "coll":
         fields = []
-        for (k, sub), (k2, iv) in zip(e["items"], inst["fields"]):
+        for (k, sub), (k2, iv) in zip(MG.resolve_copies(e)["items"], inst["fields"]):
             if sub["t"] == "const":
                 continue
             fields.append([k2, drop_collection_constants(sub, iv)])
